@@ -1,6 +1,7 @@
 package vc
 
 import (
+	"sort"
 	"fmt"
 	"go/types"
 	"strings"
@@ -131,7 +132,7 @@ func (e *Exec) argsEscape(fr *Frame, st *State, c *ssa.CallCommon) {
 	}
 	// variables captured by closures may be written by any opaque call
 	for f := fr; f != nil; f = f.parent {
-		for k := range f.esc {
+		for _, k := range sortedKeys(f.esc) {
 			e.havocLocal(st, k)
 		}
 	}
@@ -487,4 +488,22 @@ func InlineClosure(p *Prog, roots []*ssa.Function, opt *Options) map[*ssa.Functi
 		walk(r, &Frame{fn: r})
 	}
 	return out
+}
+
+func sortedKeys(m map[string]bool) []string {
+	var ks []string
+	for k := range m {
+		ks = append(ks, k)
+	}
+	sort.Strings(ks)
+	return ks
+}
+
+func sortedBlocks(m map[*ssa.BasicBlock]bool) []*ssa.BasicBlock {
+	var bs []*ssa.BasicBlock
+	for b := range m {
+		bs = append(bs, b)
+	}
+	sort.Slice(bs, func(i, j int) bool { return bs[i].Index < bs[j].Index })
+	return bs
 }
